@@ -86,3 +86,10 @@ add('C05', 'differential property-based testing with a reference signer: coverin
     'Trusted: refpgp signer/verifier. Parse rejection is an outcome except for the classes the statement names. Flips that make PGPy loop over a gigabyte-scale declared length are abandoned by a '
     'watchdog and counted.',
     'DESIGN.md 4/C05')
+add('C14', 'model-based property testing: generated key recipes (the model) realised through the API and by a reference signer in foreign layouts, exports parsed by grammar position by the reference, import compared component by component',
+    'Recipes with 1-4 user ids, 0-2 photo attributes, self/third-party/revocation/re-certification signatures with exportable unset/true/false, direct-key and designated-revoker signatures, '
+    '0-3 subkeys with bindings, re-bindings and revocations, key revocation, deliberately tied creation times; private/public, binary/armored, foreign layouts (old headers, trust packets, '
+    'reversed order), concatenations of up to 3 keys. The export must contain exactly the exportable signatures at the right grammar positions, all verifying under the reference; '
+    'the import must reproduce fingerprint, components and per-component signature multisets, verify under PGPy, and a copy must export identically.',
+    'Trusted: refpgp.grammar/sig. Component order is not asserted.',
+    'DESIGN.md 4/C14')
